@@ -322,7 +322,26 @@ fn history(_ctx: &Ctx, case: u64, r: &mut Rng, rep: &mut Report) {
             rep.violation(case, "restore-failed", format!("restore from the hot/cold repository failed: {e}"), detail.clone());
         }
         h.uni.lock().stores[COLD].warm.clear();
-        let ri = Cmd::RepairIndex { read_all: true, dry_run: false }.run(&h.env);
+        // half of the time some index files are gone (from both stores): the packs they listed are unindexed then, and
+        // their headers have to be read from the cold store - after a warm-up like any other read
+        let read_all = if r.chance(1, 2) {
+            let mut g = h.uni.lock();
+            let ids: Vec<Id> = g.stores[COLD].ids(FileType::Index);
+            let mut n = 0u64;
+            for (i, id) in ids.iter().enumerate() {
+                if i == 0 || r.chance(1, 2) {
+                    let _ = g.stores[COLD].del(FileType::Index, id);
+                    let _ = g.stores[HOT].del(FileType::Index, id);
+                    n += 1;
+                }
+            }
+            drop(g);
+            rep.count("index_files_removed_before_repair_index", n);
+            r.chance(1, 2)
+        } else {
+            true
+        };
+        let ri = Cmd::RepairIndex { read_all, dry_run: false }.run(&h.env);
         rep.evaluations += 1;
         if let Ok(Err(e)) = &ri {
             rep.violation(case, "repair-index-failed", format!("repair_index(read_all) on the hot/cold repository failed: {e}"), detail.clone());
